@@ -92,7 +92,7 @@ def bound_name(P, f, operand):
     seen = set()
     while l is not None and l not in seen:
         seen.add(l)
-        nm = f.locals[l].get("name")
+        nm = f.locals[l].get("name") if not f.locals[l].get("inlined") else None     # a helper's own parameter names prove nothing
         if nm in ("min", "max"):
             return nm
         if 1 <= l <= f.arg_count:
@@ -130,15 +130,20 @@ def r08b(ctx, P):
     for r in roots:
         per = {"min": 0, "max": 0}
         bad = None
-        for g in with_closures(P, r):
+        for g0 in with_closures(P, r):
+            g = P.inlined(g0.path, depth=1, small=30) or g0       # a generic `within(v, min, max)` helper is read in place
+            cmps = []
             for b, i, s in g.stmts():
-                if s["k"] != "assign" or s["rv"]["k"] != "binop" or s["rv"]["op"] not in ("Ge", "Gt", "Le", "Lt"):
-                    continue
-                a, bb = s["rv"]["a"], s["rv"]["b"]
+                if s["k"] == "assign" and s["rv"]["k"] == "binop" and s["rv"]["op"] in ("Ge", "Gt", "Le", "Lt"):
+                    cmps.append((b, i, s["rv"]["op"], s["rv"]["a"], s["rv"]["b"]))
+            for b, t in g.calls():
+                m = re.search(r"PartialOrd(<[^>]*>)?>?::(ge|gt|le|lt)$", callee_of(t))
+                if m and len(t["args"]) == 2:
+                    cmps.append((b, TERM, m.group(2).capitalize(), t["args"][0], t["args"][1]))
+            for b, i, op, a, bb in cmps:
                 na, nb = bound_name(P, g, a), bound_name(P, g, bb)
                 if na is None and nb is None:
                     continue
-                op = s["rv"]["op"]
                 if nb is not None and na is None:      # value OP bound
                     want = "Ge" if nb == "min" else "Le"
                     which = nb
@@ -340,8 +345,19 @@ def _r08c_adapter_form(ctx, P, rid, fname, f):
                     # the filter must not be bypassed when a binding exists: it is, if another definition of the chain lacks it
                     verdict = True
                     continue
+                if callee_of(pt) in P.fns and P.fns[callee_of(pt)].crate == "searchlite_core":
+                    # the closure is handed to a function of the crate that decides which objects it is called for
+                    cv = _r08c_callable_form(ctx, P, f, par, pb, pt, g)
+                    if cv is not None:
+                        verdict = cv[0]
+                        if not cv[0]:
+                            why = cv[1]
+                        continue
+                # helpers that RETURN the candidate indices (a collection or iterator of usize), not any function mentioned on the way
                 helpers = [x for x in sl.sources(recv) if x[0] == "call" and callee_of(x[2]) in P.fns and
-                           P.fns[callee_of(x[2])].crate == "searchlite_core" and callee_of(x[2]).startswith(FILTERS)]
+                           P.fns[callee_of(x[2])].crate == "searchlite_core" and callee_of(x[2]).startswith(FILTERS) and
+                           re.search(r"usize", (P.fns[callee_of(x[2])].ret_ty or "")) and
+                           re.search(r"Vec<|Iterator|\[usize|SmallVec|Range", (P.fns[callee_of(x[2])].ret_ty or ""))]
                 for x in helpers:
                     h = P.fns[callee_of(x[2])]
                     ctx.saw(h)
@@ -364,6 +380,137 @@ def _r08c_adapter_form(ctx, P, rid, fname, f):
                    "candidates are filtered by their recorded parent whenever a binding exists (%s)" % where if verdict else
                    "%s: %s" % (fname, why), where or Site(g, b).loc())
     return n
+
+
+def _r08c_callable_form(ctx, P, f, par, pb, pt, g):
+    """`candidates.any(|idx| recurse(.., Some(idx)))` where `any` is a function of the crate: follow the callable.
+    Returns (True, "") when every invocation of the callable inside that function is guarded by a parent test on the value it is
+    invoked with, (False, why) when an invocation is found that is not, None when the shape is not recognised."""
+    F = P.fns[callee_of(pt)]
+    psl = Slice(par, through_all_calls=True)
+    pos = None
+    for j, a in enumerate(pt["args"]):
+        if any(y[0] == "agg" and y[3].get("closure") == g.path for y in psl.sources(a)):
+            pos = j
+    if pos is None:
+        return None
+    pname = F.locals[pos + 1].get("name") if pos + 1 < len(F.locals) else None
+    invs = []
+    for h in [F] + P.closures_of(F):
+        hs = Slice(h, through_all_calls=True)
+        for b, t in h.calls():
+            if not callee_of(t).endswith(("FnMut::call_mut", "Fn::call", "FnOnce::call_once")) or len(t["args"]) < 2:
+                continue
+            src = hs.sources(t["args"][0])
+            is_param = any(x[0] == "arg" and x[1] == pos + 1 for x in src) if h is F else \
+                any(x[0] == "field" and any(str(z).replace("upvar:", "").lstrip("*") == pname for z in x[2]) for x in src)
+            if is_param:
+                invs.append((h, b, t))
+    if not invs:
+        return None
+    for h, b, t in invs:
+        ctx.saw(h)
+        hs0 = Slice(h)
+        hs = Slice(h, through_all_calls=True)
+        v_roots = {x[1] for x in hs.sources(t["args"][1]) if x[0] == "arg" and x[1] >= 2}
+        guarded = False
+        for (a, succ) in h.control_deps_transitive(b):
+            ta = h.blocks[a]["term"]
+            if ta["k"] != "switch":
+                continue
+            vals = dict(zip(ta["values"], ta["targets"]))
+            true_succ = ta.get("otherwise") if 0 in vals else vals.get(1)
+            if succ != true_succ:
+                continue
+            for x in hs0.sources(ta["on"]):
+                if x[0] != "call":
+                    continue
+                G = P.fns.get(callee_of(x[2]))
+                if G is None or G.crate != "searchlite_core":
+                    continue
+                # the guard is asked about the same value
+                same = any({y[1] for y in hs.sources(a_) if y[0] == "arg" and y[1] >= 2} & v_roots for a_ in x[2]["args"][1:])
+                if same and _is_parent_guard(P, G, f):
+                    ctx.saw(G)
+                    guarded = True
+        if not guarded:
+            return (False, "%s invokes the per-object evaluation at %s for objects that were not tested against the bound parent" % (
+                F.short, Site(h, b).loc()))
+    return (True, "")
+
+
+def _is_parent_guard(P, G, caller):
+    """G(self, idx) -> bool returns true only (a) on the None arm of a test of an Option<usize> field of self (no binding), or (b) as
+    the result of comparing that field with the recorded parent of idx (a Vec<Option<usize>> field of self, read at idx); and every
+    construction of self's type fills the parents field from FastFieldsReader::nested_parents and the binding from a parameter that
+    `caller` feeds with its own parent binding."""
+    gs = Slice(G, through_all_calls=True)
+    gs0 = Slice(G)
+    self_ty = G.local_ty(1).lstrip("&").strip()
+    adt = P.adts.get(self_ty)
+    if adt is None or len(adt["variants"]) != 1:
+        return False
+    fields = {x[0]: x[1] for x in adt["variants"][0]["fields"]}
+    bind_f = [n for n, ty in fields.items() if re.fullmatch(r"core::option::Option<usize>", ty)]
+    par_f = [n for n, ty in fields.items() if "Vec<core::option::Option<usize>>" in ty]
+    if len(bind_f) != 1 or len(par_f) != 1:
+        return False
+    bind_f, par_f = bind_f[0], par_f[0]
+    # definitions of the result
+    ok_defs = True
+    n_cmp = 0
+    for d in G.defs().get(0, []):
+        if d["k"] == "assign" and d["rv"]["k"] == "use" and (op_const(d["rv"]["a"]) or {}).get("int") == 1:
+            # `true`: only on the None arm of the binding
+            arm = False
+            for (a, succ) in G.control_deps_transitive(d["b"]):
+                ta = G.blocks[a]["term"]
+                if ta["k"] == "switch" and bind_f in gs0.fields(ta["on"]) and any(x[0] == "discr" for x in gs0.sources(ta["on"])):
+                    vals = dict(zip(ta["values"], ta["targets"]))
+                    if succ == vals.get(0, ta.get("otherwise") if 0 not in vals else None):
+                        arm = True
+            ok_defs = ok_defs and arm
+        elif d["k"] == "assign" and d["rv"]["k"] == "use" and (op_const(d["rv"]["a"]) or {}).get("int") == 0:
+            continue
+        elif d["k"] == "call" and callee_of(d["t"]).endswith(("PartialEq>::eq", "PartialEq::eq")) or \
+                (d["k"] == "call" and re.search(r"PartialEq(<[^>]*>)?>?::eq$", callee_of(d["t"]))):
+            a0, a1 = d["t"]["args"][0], d["t"]["args"][1]
+            f0, f1 = gs.fields(a0), gs.fields(a1)
+            idx0 = any(x[0] == "arg" and x[1] == 2 for x in gs.sources(a0))
+            idx1 = any(x[0] == "arg" and x[1] == 2 for x in gs.sources(a1))
+            good = (par_f in f0 and idx0 and bind_f in f1) or (par_f in f1 and idx1 and bind_f in f0)
+            ok_defs = ok_defs and good
+            n_cmp += 1
+        else:
+            ok_defs = False
+    if not ok_defs or n_cmp < 1:
+        return False
+    # constructions of the type
+    built = 0
+    for q, h in P.fns.items():
+        if h.crate != "searchlite_core":
+            continue
+        for b, i, st in h.stmts():
+            if st["k"] == "assign" and st["rv"]["k"] == "agg" and st["rv"].get("adt") == self_ty:
+                built += 1
+                names = [x[0] for x in adt["variants"][0]["fields"]]
+                hsl = Slice(h, through_all_calls=True)
+                po = st["rv"]["ops"][names.index(par_f)]
+                bo = st["rv"]["ops"][names.index(bind_f)]
+                if not any(x[0] == "call" and callee_of(x[2]).endswith("FastFieldsReader::nested_parents") for x in hsl.sources(po)):
+                    return False
+                bargs = {x[1] for x in hsl.sources(bo) if x[0] == "arg"}
+                if not bargs or any(x[0] in ("agg", "call") for x in Slice(h).sources(bo)):
+                    return False
+                # the constructor's callers in `caller` pass their own binding
+                for cb, ct in caller.calls():
+                    if callee_of(ct) == h.path:
+                        csl = Slice(caller, through_all_calls=True)
+                        for k in bargs:
+                            if k - 1 < len(ct["args"]):
+                                if not any(x[0] == "arg" and caller.locals[x[1]].get("name") == "parent_idx" for x in csl.sources(ct["args"][k - 1])):
+                                    return False
+    return built >= 1
 
 
 def _named_in(f, operand, depth=0):
@@ -468,7 +615,9 @@ def r08d(ctx, P):
                   "to collect_nested_object, must derive from the count already recorded for that path (a read of `nested_counts`): a "
                   "count or index computed from the current array alone restarts at 0 for each parent, merging the children of "
                   "different parents and binding them to the last one")
-    f = P.fn("searchlite_core::index::segment::collect_nested")
+    # small private helpers (a `next base index` function, a slot accessor) are read as part of collect_nested
+    f = P.inlined("searchlite_core::index::segment::collect_nested", depth=1, small=40,
+                  keep=("searchlite_core::index::segment::collect_nested_object",))
     if not ctx.anchor(rid, f, "segment::collect_nested"):
         return
     ctx.saw(f)
